@@ -1236,6 +1236,105 @@ def oracle_binding_template_strings(run: Run, cases: list[tuple[str, str]]) -> N
                     break
 
 
+# ---------------------------------------------------------------- integer literals as range bounds
+
+# name: (source with %(r)s = the range literal and %(x)s = a plain spelling of its first item,
+#        what must be written given the exact items)
+RANGE_SITES: dict[str, tuple[str, Any]] = {
+    "size": ("{{ %(r)s | size }}", lambda it: str(len(it))),          # rendered first: guards the others
+    "first": ("{{ %(r)s | first }}", lambda it: str(it[0])),
+    "last": ("{{ %(r)s | last }}", lambda it: str(it[-1])),
+    "join": ("{{ %(r)s | join: ',' }}", lambda it: ",".join(map(str, it))),
+    "output": ("{{ %(r)s }}", lambda it: f"{it[0]}..{it[-1]}"),
+    "for": ("{%% for i in %(r)s %%}[{{ i }}]{%% endfor %%}", lambda it: "".join(f"[{i}]" for i in it)),
+    "for_reversed": ("{%% for i in %(r)s reversed %%}[{{ i }}]{%% endfor %%}",
+                     lambda it: "".join(f"[{i}]" for i in reversed(it))),
+    "for_limit": ("{%% for i in %(r)s limit: 1 %%}[{{ i }}]{%% endfor %%}", lambda it: f"[{it[0]}]"),
+    "forloop_length": ("{%% for i in %(r)s %%}{{ forloop.length }};{%% endfor %%}", lambda it: f"{len(it)};" * len(it)),
+    "contains_first": ("{%% if %(r)s contains %(x)s %%}T{%% else %%}F{%% endif %%}", lambda it: "T"),
+    "contains_before": ("{%% if %(r)s contains %(before)s %%}T{%% else %%}F{%% endif %%}", lambda it: "F"),
+    "contains_after": ("{%% if %(r)s contains %(after)s %%}T{%% else %%}F{%% endif %%}", lambda it: "F"),
+    "assign": ("{%% assign r = %(r)s %%}{{ r | first }}|{{ r | last }}|{{ r | size }}",
+               lambda it: f"{it[0]}|{it[-1]}|{len(it)}"),
+    "cycle": ("{%% cycle %(r)s, 2 %%}", lambda it: f"{it[0]}..{it[-1]}"),
+    "case_for": ("{%% case 1 %%}{%% when 1 %%}{%% for i in %(r)s %%}{{ i }};{%% endfor %%}{%% endcase %%}",
+                 lambda it: "".join(f"{i};" for i in it)),
+    "reverse_first": ("{{ %(r)s | reverse | first }}", lambda it: str(it[-1])),
+    "ternary": ("{{ %(r)s if true else 1 }}", lambda it: f"{it[0]}..{it[-1]}"),
+}
+
+
+def range_bound_literals(r: Any, thorough: bool) -> list[tuple[str, int]]:
+    """(spelling, exact value) of integer literals that are not all doubles."""
+    vals = [2**53 - 1, 2**53, 2**53 + 1, 2**53 + 3, 9007199254740993, 2**63 - 1, 2**63, 2**63 + 1, 2**64 - 1, 2**64,
+            2**64 + 1, 10**22, 10**22 + 1, 10**22 - 1, 10**23, 10**23 + 1, 10**23 - 1, 5 * 10**22 + 7, 10**40 + 1, 7, 0]
+    for _ in range(6 if not thorough else 60):
+        vals.append(r.randint(2**53, 10**24))
+    out: list[tuple[str, int]] = []
+    for v in vals:
+        out.append((str(v), v))
+        out.append(("-" + str(v), -v))
+        out.append((str(v) + r.choice(["e0", "E0", "e+0"]), v))
+    for m, e in [(1, 22), (1, 23), (12, 22), (9, 22), (123, 21), (1, 24), (3, 23), (9007199254740993, 1), (1, 16), (1, 17)]:
+        for sp in (f"{m}e{e}", f"{m}E+{e}", f"-{m}e{e}"):
+            out.append((sp, (-1 if sp[0] == "-" else 1) * m * 10**e))
+    return list(dict.fromkeys(out))
+
+
+def oracle_range_bounds(run: Run) -> None:
+    """An integer literal denotes the number written when it is a bound of a
+    range literal too: start, stop or both, under render() and render_async().
+    Ranges are tiny (L..L, L..L+2, L-2..L); `| size` is rendered first and a
+    wrong size stops the case, and loops are capped, so a widened range cannot
+    run away."""
+    im = run.im
+
+    class Capped(im.Environment):  # type: ignore[misc,name-defined]
+        loop_iteration_limit = 64
+
+    env = Capped()
+    limit = im.max_str_int
+    lits = range_bound_literals(run.r, run.thorough)
+    for idx, (sp, n) in enumerate(lits):
+        shapes = [("both", f"({sp}..{sp})", [n]),
+                  ("start", f"({sp}..{n + 2})", [n, n + 1, n + 2]),
+                  ("stop", f"({n - 2}..{sp})", [n - 2, n - 1, n])]
+        for shape, rng, items in shapes:
+            env_args = {"r": rng, "x": str(items[0]), "before": str(items[0] - 1), "after": str(items[-1] + 1)}
+            names = list(RANGE_SITES) if run.thorough or idx % 3 == 0 or shape == "both" else ["size", "first", "last", "for"]
+            for name in names:
+                fmt, expect = RANGE_SITES[name]
+                src = fmt % env_args
+                want = expect(items)
+                stop_case = False
+                for mode in ("sync", "async"):
+                    im.mode = mode
+                    try:
+                        out = attempt(lambda src=src: im.run_template(env.from_string(src)))
+                    finally:
+                        im.mode = "sync"
+                    run.count("oracle_renders")
+                    run.count("range_bound_renders")
+                    if out != ("ok", want):
+                        got = out[1] if out[0] == "ok" else type(out[1]).__name__
+                        run.fail("int-literal-value:range-bound" + (":async" if mode == "async" else ""),
+                                 f"{src!r} ({'render_async' if mode == 'async' else 'render'}) writes {str(got)[:120]!r}; "
+                                 f"the {shape} bound {sp} denotes {n}, so it must write {want[:120]!r}",
+                                 {"source": src, "mode": mode, "bound": shape, "literal": sp, "intended": want,
+                                  "got": str(got)})
+                        stop_case = stop_case or name == "size"
+                if stop_case:
+                    break
+            run.nontrivial.add(f"rb:{shape}:{sp}")
+        # the tie: the bound the evaluated range really has is the model's value of the spelling
+        out = attempt(lambda sp=sp: env.from_string("{{ (%s..%s) | first }}" % (sp, sp)).render())
+        if out[0] == "ok" and re.fullmatch(r"-?[0-9]+", out[1]):
+            z = c_bigint(int(out[1]))
+            if z is not None:
+                run.add("range_bound", f"int_ok {limit} {C.cstr(sp)} (Ok {z})", f"parse_integer_literal {limit} {C.cstr(sp)}",
+                        {"source": "{{ (%s..%s) | first }}" % (sp, sp), "implementation": out[1]})
+
+
 # ---------------------------------------------------------------- auto_escape x literal positions
 
 AE_TEMPLATES = {"p": "{{ s }}"}
@@ -1565,6 +1664,8 @@ def main(chk: C.Check, build: C.Build) -> None:
     lap("oracle_invalid")
     oracle_autoescape(run, gen_autoescape_literals(run, short + longer))
     lap("oracle_autoescape")
+    oracle_range_bounds(run)
+    lap("oracle_range_bounds")
     oracle_json_history(run)                     # before any other use of the json filter in this process
     json_history_finish(run, history_procs)
     lap("oracle_json_history")
@@ -1599,7 +1700,7 @@ def main(chk: C.Check, build: C.Build) -> None:
         with open(os.environ["C20_DUMP"], "w") as f:
             json.dump([it["case"] for it in run.items], f)
     if run.items and not os.environ.get("C20_NOCOQ"):
-        C.correspond(chk, "c20", IMPORTS, DEFS, run.items, what="literals", shard=max(300, len(run.items) // 16 + 1))
+        C.correspond(chk, "c20", IMPORTS, DEFS, run.items, what="literals", shard=max(300, len(run.items) // max(1, min(16, C.JOBS)) + 1))
     lap("coq")
     C.proofs_verdict(chk, proofs_ok)
 
@@ -1623,6 +1724,9 @@ def main(chk: C.Check, build: C.Build) -> None:
                  "name) over backslash-heavy names (layouts\\base, code\\u0041, UNC paths, quotes, newline, astral) under plain, fully escaped "
                  "and seeded spellings, sync and async. every site also under render_async() (quick: a twelfth of the short spellings, half of the "
                  "longer ones), incl. include/render with|for <literal> [as v] which must bind the string once. "
+                 "range bounds: integer literals around 2^53, 2^63, 2^64, 10^22..10^23 (plain, negative, e/E exponent spellings) as start, "
+                 "stop or both bounds of tiny range literals at 17 positions (size first last join output for reversed limit "
+                 "forloop.length contains assign cycle case reverse ternary), sync and async. "
                  "json history: %d scalars (True/1/1.0, False/0/0.0/-0.0 ...) + nested + %d literals through the json filter in seeded "
                  "and fixed type-major orders, long-lived and fresh environments, in this process and in fresh subprocesses, compared "
                  "with type, value and sign of zero. "
